@@ -30,6 +30,11 @@ func famForest(g *Gen, tier string, shard, nshards int) {
 	for h := 0; h < nHist; h++ {
 		s := newSim(g, pickRows(g))
 		nBlocks := 3 + g.Intn(maxBlocks)
+		// one history in six lives in a forest of many trees (9 or more roots, rows >= 9)
+		manyTrees := h%6 == 5
+		if manyTrees {
+			nBlocks = 3 + g.Intn(3)
+		}
 		for b := 0; b < nBlocks; b++ {
 			mode := g.Intn(8)
 			if b == 0 {
@@ -59,7 +64,28 @@ func famForest(g *Gen, tier string, shard, nshards int) {
 			if b == 0 && nAdds == 0 {
 				nAdds = 1 + g.Intn(maxAdds)
 			}
-			s.applyBlock(s.pickDeletions(mode), nAdds)
+			dels := s.pickDeletions(mode)
+			if manyTrees {
+				if b == 0 {
+					nAdds = []int{511, 1022, 1023, 767, 1021, 509}[g.Intn(6)]
+				} else {
+					if g.Intn(3) != 0 {
+						nAdds = 0
+					} else {
+						nAdds = 1 + g.Intn(3)
+					}
+					if g.Intn(3) != 0 { // deletions among the small trees at the right edge
+						live := s.liveIdx()
+						dels = nil
+						for i := len(live) - 1; i >= 0 && i >= len(live)-24; i-- {
+							if g.Intn(2) == 0 {
+								dels = append([]int{live[i]}, dels...)
+							}
+						}
+					}
+				}
+			}
+			s.applyBlock(dels, nAdds)
 			s.obsRoots()
 			if g.Intn(3) == 0 || b == nBlocks-1 {
 				s.observeAll()
